@@ -43,7 +43,6 @@ ghost var gPol1 int
 ghost var gPol2 int
 
 func isSamePolicy(spec1 *Spec, spec2 *Spec, policyName string) (same bool)
-  flag frame=unchecked
   requires spec1 != nil && spec2 != nil
   requires forall k int :: 0 <= k && k < len(spec1.Policies) ==> spec1.Policies[k] != nil
   requires forall k int :: 0 <= k && k < len(spec2.Policies) ==> spec2.Policies[k] != nil
@@ -109,7 +108,7 @@ pred respStatus429() := ptr(outResp, "*httpprot.Response").Response.StatusCode
 
 func (rl *RateLimiter) Handle(ctx *context.Context) (result string)
   flag allocates
-  flag frame=unchecked
+  modifies allof("ghost:github.com/megaease/easegress/pkg/context.outResp"), allof("ghost:github.com/megaease/easegress/pkg/context.outRespTyp"), allof("ghost:github.com/megaease/easegress/pkg/filters/ratelimiter.gAdmitted"), allof("ghost:github.com/megaease/easegress/pkg/filters/ratelimiter.gCancelled"), allof("ghost:github.com/megaease/easegress/pkg/filters/ratelimiter.gImposed"), allof("ghost:github.com/megaease/easegress/pkg/filters/ratelimiter.gRule"), allof("ghost:github.com/megaease/easegress/pkg/filters/ratelimiter.gTimerFired"), allof("ghost:github.com/megaease/easegress/pkg/util/ratelimiter.clock"), allof("ghostf:github.com/megaease/easegress/pkg/util/ratelimiter.RateLimiter.rel"), allof("map<string,[]string>#card"), allof("map<string,[]string>#dom"), allof("map<string,[]string>#val#arr"), allof("map<string,[]string>#val#cap"), allof("map<string,[]string>#val#len"), allof("util/ratelimiter.RateLimiter.cycle"), allof("util/ratelimiter.RateLimiter.state"), allof("util/ratelimiter.RateLimiter.tokens")
   requires rl != nil && rl.spec != nil && ctx != nil && ctxInput(ref(ctx)) != 0
   requires limiters-created: forall k int :: 0 <= k && k < len(rl.spec.URLs) ==> rl.spec.URLs[k] != nil && usableLimiter(rl.spec.URLs[k].rl)
   ensures unmatched-urls-are-never-limited: (forall k int :: 0 <= k && k < len(rl.spec.URLs) ==> !ruleHits(rl.spec, k, ctx)) ==> result == "" && gRule == -1
